@@ -51,12 +51,22 @@ def arrV {n : Nat} (v : Fin n → E) : Nat → E := fun i => if h : i < n then v
 def arrM {m n : Nat} (M : Fin m → Fin n → E) : Nat → Nat → E :=
   fun i j => if h : i < m ∧ j < n then M ⟨i, h.1⟩ ⟨j, h.2⟩ else Scalar.ofInt 0
 
+/-- evaluate a vector once and keep the values (vectors are functions; without this every later read of an updated
+    estimate would re-run the whole chain of updates that produced it).  `readArray (storeArray f) = f`. -/
+@[noinline] def storeArray {n : Nat} (f : Fin n → E) : Array E := Array.ofFn f
+
+def readArray {n : Nat} (a : Array E) : Fin n → E := fun i => a.getD i.val (Scalar.ofInt 0)
+
+theorem stored_eq {n : Nat} (f : Fin n → E) : readArray (storeArray f) = f := by
+  funext i
+  simp [readArray, storeArray]
+
 /-- `pose += δ` with a compact increment (graph.py:494; the generated `__iadd__` specialisation) -/
 def Pose.boxplus : Pose E → (Nat → E) → Pose E
-  | .r2 p, δ => .r2 (PoseR2.iadd_boxplus p (vecN δ))
-  | .r3 p, δ => .r3 (PoseR3.iadd_boxplus p (vecN δ))
-  | .se2 p, δ => .se2 (PoseSE2.iadd_boxplus p (vecN δ))
-  | .se3 p, δ => .se3 (PoseSE3.iadd_boxplus p (vecN δ))
+  | .r2 p, δ => let a := storeArray (PoseR2.iadd_boxplus p (vecN δ)); .r2 (readArray a)
+  | .r3 p, δ => let a := storeArray (PoseR3.iadd_boxplus p (vecN δ)); .r3 (readArray a)
+  | .se2 p, δ => let a := storeArray (PoseSE2.iadd_boxplus p (vecN δ)); .se2 (readArray a)
+  | .se3 p, δ => let a := storeArray (PoseSE3.iadd_boxplus p (vecN δ)); .se3 (readArray a)
 
 /-- an edge of one of the two built-in classes; `i`, `j` are positions in the vertex list -/
 inductive Edge (E : Type) where
